@@ -10,7 +10,7 @@ import (
 
 func genC05(c *Ctx) error {
 	c.ShardSize = 25
-	c.Notes["rule"] = "histories of 10-30 steps on one chaincode (LevelDB or CouchDB key rules): submissions of scripted transactions (valid ones, and ones rejected at submission: corrupted signature, missing signature, a black-listed or malformed address argument) and batches whose id lists are random multisets of pending, already executed, unknown and duplicated ids. Observed after every step: the ledger projection (data, pending, nonce keys) and, for batches, the reply per listed id. Non-trivial: some id is listed at least twice over the history. Second part (pipeline cases): histories of 10-25 whole invocations on one chaincode (the scripted method sometimes disabled): signed submissions by ordinary / robot / malformed creators from single-key and 2-of-3 accounts, honest or broken (corrupted, foreign-key, other-message or blank signature, other channel name, altered script, unsigned, bad nonce string; access-control answer ok / black / grey / failing / without key types), batchExecute by the robot or by others with multisets of known / repeated / unknown ids, executeTasks lists of 1-3 such requests by any creator; observed after every invocation: response class and the ledger projection; compared with Model/Pipeline.v step by step. Non-trivial there: >= 2 recorded, >= 2 refused, >= 1 executed."
+	c.Notes["rule"] = "histories of 10-30 steps on one chaincode (LevelDB or CouchDB key rules): submissions of scripted transactions (valid ones, and ones rejected at submission: corrupted signature, missing signature, a black-listed or malformed address argument, a sender-less method with no argument or one too many) and batches whose id lists are random multisets of pending, already executed, unknown and duplicated ids. Observed after every step: the ledger projection (data, pending, nonce keys) and, for batches, the reply per listed id. Non-trivial: some id is listed at least twice over the history. Second part (pipeline cases): histories of 10-25 whole invocations on one chaincode (the scripted method sometimes disabled): signed submissions by ordinary / robot / malformed creators from single-key and 2-of-3 accounts, honest or broken (corrupted, foreign-key, other-message or blank signature, other channel name, altered script, unsigned, bad nonce string; access-control answer ok / black / grey / failing / without key types), batchExecute by the robot or by others with multisets of known / repeated / unknown ids, executeTasks lists of 1-3 such requests by any creator; observed after every invocation: response class and the ledger projection; compared with Model/Pipeline.v step by step. Non-trivial there: >= 2 recorded, >= 2 refused, >= 1 executed."
 	n := c.N(200, 4000)
 	for i := 0; i < n; i++ {
 		if err := c05Case(c); err != nil {
@@ -80,8 +80,16 @@ func c05Case(c *Ctx) error {
 				bad = true
 			}
 			if rng.Intn(6) == 0 { // a batched method without a sender: unsigned, no nonce
-				res := w.Submit("tt", "plain", []string{bodyScript(body)})
-				hist = append(hist, fmt.Sprintf("HSub %d 0 0 %d false %s %s", txNum(res.TxID), bi, coqBool(res.OK()), bw.ledgerTerm()))
+				pargs, pbad := []string{bodyScript(body)}, false
+				switch rng.Intn(6) {
+				case 0:
+					pargs, pbad = nil, true // no argument at all for a method that declares one
+					c.Count("submit_plain_without_arguments")
+				case 1:
+					pargs, pbad = append(pargs, "extra"), true
+				}
+				res := w.Submit("tt", "plain", pargs)
+				hist = append(hist, fmt.Sprintf("HSub %d 0 0 %d %s %s %s", txNum(res.TxID), bi, coqBool(pbad), coqBool(res.OK()), bw.ledgerTerm()))
 				if res.OK() {
 					known = append(known, res.TxID)
 					c.Count("submit_plain_ok")
